@@ -106,7 +106,7 @@ fn check_file(doc: &Doc, a: &ast::Aidl, item_qnames: &HashMap<String, String>, s
 pub fn run(ctx: &Ctx) -> i32 {
     let n = ctx.tier.pick(8_000u64, 120_000);
     let stats = par_cases(ctx, "projects", n, Duration::from_secs(ctx.tier.pick(80, 900)), |i, rng, st| {
-        let cfg = ProjCfg { allow_collisions: false, max_type_depth: 3, ..ProjCfg::default() };
+        let cfg = ProjCfg { allow_collisions: false, max_type_depth: 3, broken_files: false, ..ProjCfg::default() };
         let pr = proj::project(rng, &cfg);
         let mut pairs = pr.as_pairs();
         // one probe file per item: imports its qualified name and refers to it; the reference must resolve to
@@ -123,7 +123,15 @@ pub fn run(ctx: &Ctx) -> i32 {
         for (k, f) in pr.files.iter().enumerate() {
             let q = f.doc.key();
             // ... followed by a reference to every other item by its full name (several references in one file)
-            let others: String = pr.files.iter().enumerate().map(|(j, g)| format!("{} o{j}; ", g.doc.key())).collect();
+            let others: String = pr
+                .files
+                .iter()
+                .enumerate()
+                .map(|(j, g)| {
+                    let kq = g.doc.key();
+                    format!("{kq} o{j}; Map<{kq}, {kq}> mk{j}; List<{kq}> li{j}; {kq}[] ar{j}; Map<String, List<{kq}[]>> deep{j}; ")
+                })
+                .collect();
             pairs.push((format!("zz_probe_all{k}"), format!("package zz.probe; {all_imports}parcelable ProbeAll{k} {{ {q} f; {others}}}")));
         }
         let key = hash_str(&pairs.iter().map(|f| f.1.clone()).collect::<Vec<_>>().join("\u{1}"));
@@ -186,15 +194,19 @@ pub fn run(ctx: &Ctx) -> i32 {
             let q = f.doc.key();
             if let Some(a) = res.valid.get(&format!("zz_probe_all{k}")).and_then(|r| r.ast.as_ref()) {
                 if let ast::Item::Parcelable(p) = &a.item {
-                    for el in p.elements.iter() {
-                        let ast::ParcelableElement::Field(fl) = el else { continue };
+                    // every custom-type node of the probe (at any depth, in every container position)
+                    for (t, _, _) in crate::astx::all_types(a) {
+                        if !t.name.contains('.') {
+                            continue; // String, List, Map, Array
+                        }
                         st.inc("registration_probes(all items imported)");
-                        let written = fl.field_type.name.clone();
-                        match &fl.field_type.kind {
+                        let written = t.name.clone();
+                        match &t.kind {
                             ast::TypeKind::ResolvedItem(k2, _) if *k2 == written || k2.ends_with(&format!(".{written}")) => {}
                             other => problems.push(format!("{}: a reference written `{written}` in a file importing every item of the project resolves to {:?}, which does not designate that item", f.id, other)),
                         }
                     }
+                    let _ = p;
                     let _ = &q;
                 }
             }
